@@ -109,6 +109,13 @@ func LoadRuntime(cfgDir string) (*Runtime, error) {
 	sort.Strings(files)
 	rt := &Runtime{Backends: map[string]*Backend{}, Certs: map[string]string{}, Sections: map[string]int{}}
 	for _, f := range files {
+		if st, err := os.Stat(f); err == nil && st.IsDir() {
+			// a write fault is being injected on this file (harness): the old content is what a reader sees
+			f = filepath.Join(f, ".orig")
+			if _, err := os.Stat(f); err != nil {
+				continue
+			}
+		}
 		fh, err := os.Open(f)
 		if err != nil {
 			return nil, err
@@ -244,6 +251,13 @@ func (s *Sim) serve(l net.Listener, h func(net.Conn)) {
 		}
 		go h(c)
 	}
+}
+
+// Freeze runs f while the simulated HAProxy cannot start a reload (used by the harness to change files atomically).
+func (s *Sim) Freeze(f func()) {
+	s.mu.Lock()
+	defer s.mu.Unlock()
+	f()
 }
 
 // ResetPlan clears the fault plan and the per-update command counter and log.
